@@ -804,6 +804,24 @@ def run_shard(sh):
             acc.count("translate_operator_accepts_openfermion")
         except NotImplementedError:
             acc.count("translate_operator_has_no_openfermion_format(used to_openfermion/from_openfermion)")
+        # wide registers: qubit indices with two and three digits (text formats: lexicographic order, regular expressions),
+        # gates on and idle qubits beyond index 9
+        for f in active_formats():
+            two_q = "CNOT" if "CNOT" in spec_names(SPEC[f]) else None
+            idxs = (0, 1, 9, 10, 11, 12, 19, 20, 99, 100)
+            wide = [[["H", [q], None, "", False]] for q in idxs] + [[["RX", [q], None, 0.37, False]] for q in idxs]
+            if two_q:
+                wide += [[[two_q, [a], [b], "", False]] for a in (0, 9, 10, 11, 20, 100) for b in (0, 9, 10, 11, 20, 100) if a != b]
+            wide += [[["H", [10], None, "", False], ["X", [9], None, "", False], ["H", [2], None, "", False]]]
+            for w in wide:
+                m = max(dmax(d) for d in w)
+                for nq in (None, m + 2, m + 4):
+                    acc.states += 1
+                    acc.transitions += len(w)
+                    run_circ_case({"kind": "circ", "fmt": f, "word": w, "nq": nq}, acc, nt_key=("wide", f, repr(w), nq))
+            for nq in (9, 10, 11, 12, 21, 25, 100, 101):
+                acc.states += 1
+                run_circ_case({"kind": "circ", "fmt": f, "word": [["H", [0], None, "", False]], "nq": nq}, acc, nt_key=("wide-idle", f, nq))
         # the empty word in every width variant
         for f in active_formats():
             for nq in (None, 1, 3):
